@@ -2,7 +2,7 @@
    requested range.  Only statements, each closed by `exact <lemma>`, Print Assumptions beneath. *)
 From Coq Require Import NArith ZArith List Bool Lia.
 From Common Require Import Outcome.
-From C31 Require Import Gen Model ModelSpec ProofsPlan ProofsStore ProofsServe ProofsQuiet ProofsMeaning ProofsByHash.
+From C31 Require Import Gen Model ModelSpec ProofsPlan ProofsStore ProofsServe ProofsQuiet ProofsMeaning ProofsByHash ProofsComplete.
 Import ListNotations.
 Local Open Scope N_scope.
 
@@ -98,6 +98,27 @@ Theorem C31_by_hash_served_iff : forall s req h seen bb,
             /\ (eh = h \/ anc_at s h (desc_end true (b_number b) (resp_max req)) = Some eh))).
 Proof. exact by_hash_served_iff. Qed.
 Print Assumptions C31_by_hash_served_iff.
+
+(* The store's model of GetAllBlocksAtNumber is complete: every stored block whose number does not
+   exceed the best number is in all_at_number of its number (the depth-first search reaches it, the
+   fuel = number of blocks suffices) ... *)
+Theorem C31_all_at_number_complete : forall s x bx bb,
+  indexed s -> wf_store_b s = true -> find_blk s (s_best s) = Some bb ->
+  find_blk s x = Some bx -> b_number bx <= b_number bb -> In x (all_at_number s (b_number bx)).
+Proof. exact all_at_number_complete_b. Qed.
+Print Assumptions C31_all_at_number_complete.
+
+(* ... so the ascending by-hash criterion needs no enumeration: served iff some STORED block with
+   number e = min(best, number(h)+max-1) is h or a descendant of h. *)
+Theorem C31_by_hash_asc_served_iff_stored : forall s req h seen bb,
+  indexed s -> wf_store_b s = true -> find_blk s (s_best s) = Some bb ->
+  r_from req = FromHash h -> r_fields req <> 0 -> seen <= max_same -> r_dir req = dir_asc ->
+  ((exists resp, serve s req seen = Ok resp)
+   <-> exists b d bd, find_blk s h = Some b /\ find_blk s d = Some bd
+         /\ b_number bd = asc_end (b_number bb) (b_number b) (resp_max req)
+         /\ (h = d \/ anc_at s d (b_number b) = Some h)).
+Proof. exact by_hash_asc_served_iff_stored. Qed.
+Print Assumptions C31_by_hash_asc_served_iff_stored.
 
 (* CreateBlockResponse never panics: on every well-formed store every request (any start, any
    direction byte, any max including 0 and values above 128, any field byte, any repeat count) is
